@@ -1127,6 +1127,18 @@ impl RScenario {
                 let d = gen::scalar_c14(&mut rng, n);
                 (d.iter().map(|x| (x.to_bits(), 0)).collect(), false, "c14".into())
             }
+            RProp::C11Pair | RProp::C20Pair | RProp::C18Pair if rng.chance(0.4) => {
+                // bit-for-bit properties have no numeric domain issue: also pairs read as (x, y)
+                // and weights over 200 orders of magnitude
+                if rng.chance(0.5) {
+                    let (d, m, mode) = gen::pairs_c09(&mut rng, n);
+                    (d.iter().map(|p| (p.0.to_bits(), p.1.to_bits())).collect(), true, format!("{:?} mode={}", m, mode))
+                } else {
+                    let (xs, m) = gen::scalar_c01(&mut rng, n);
+                    let ws = gen::weights_c17(&mut rng, n);
+                    (xs.iter().zip(ws.iter()).map(|(x, w)| (x.to_bits(), w.to_bits())).collect(), true, format!("{:?} wide weights", m))
+                }
+            }
             RProp::C08 | RProp::C11Pair | RProp::C20Pair | RProp::C18Pair => {
                 let (d, m, k) = gen::weighted_c08(&mut rng, n);
                 (d.iter().map(|p| (p.0.to_bits(), p.1.to_bits())).collect(), true, format!("{:?} {:?}", m, k))
